@@ -226,5 +226,5 @@ def _parse_triple(symbol, tokens):
             elif _next.text.startswith(','):  # role(a ,b)
                 target = _next.text[1:]
             else:  # role(a b)
-                tokens.error("Expected: ','", token=_next)
+                raise tokens.error("Expected: ','", token=_next)
     return source, target
